@@ -76,6 +76,10 @@ def symBS (conv : Conv) (θ tl bl tr br : XExpr) : Matrix (Fin 2) (Fin 2) CExpr 
 /-- `PS._compute_unitary(use_symbolic=True)` with `max_error = 0` -/
 def symPS (φ : XExpr) : Matrix (Fin 1) (Fin 1) CExpr := !![.expI φ]
 
+/-- `PS._compute_unitary(use_symbolic=True)` with a phase error: `phase = phi.spv + max_error.spv * r`,
+`r = random.uniform(-1, 1)` — the draw is external, the model takes it as an input -/
+def symPSerr (φ m : XExpr) (r : ℚ) : Matrix (Fin 1) (Fin 1) CExpr := !![.expI (.add φ (.mul m (.const r)))]
+
 /-- `WP._compute_unitary(use_symbolic=True)` -/
 def symWP (d x : XExpr) : Matrix (Fin 2) (Fin 2) CExpr :=
   !![.add (.re (.app .cos d)) (.mul (.mul .I (.re (.app .sin d))) (.re (.app .cos x.dbl))),
